@@ -1590,6 +1590,9 @@ func simC17Store(c *Ctx) {
 		}
 		if d.value {
 			if o.val == cty.NilVal {
+				if strings.HasPrefix(c.Sim, "C06/") {
+					observe(c, o.val, d.name) // (for the monitor's own command this is a value like any other: one without a type)
+				}
 				c.Fail("C17", "no-result", "no-result:"+d.name, "%s returned neither an error nor a value\nrecord: %x", d.name, clipBytes(data))
 			}
 			if hugeExp {
